@@ -309,6 +309,7 @@ func (c *diskCache) Put(ctx context.Context, kind cache.EntryKind, hash string, 
 		c.mu.Unlock()
 		unreserve = true
 	}
+	verifPoint("put.afterReserve", key, size)
 
 	legacy := kind == cache.CAS && c.storageMode == casblob.Identity
 
@@ -346,6 +347,7 @@ func (c *diskCache) Put(ctx context.Context, kind cache.EntryKind, hash string, 
 			c.proxy.Put(ctx, kind, hash, size, sizeOnDisk, rc)
 		}
 	}
+	verifPoint("put.beforeCommit", key, sizeOnDisk)
 
 	unreserve, removeTempfile, err = c.commit(key, legacy, blobFile, size, size, sizeOnDisk, random)
 	if err != nil {
@@ -457,6 +459,7 @@ func (c *diskCache) availableOrTryProxy(kind cache.EntryKind, hash string, size 
 	if listElem != nil {
 		c.mu.Unlock() // We expect a cache hit below.
 		locked = false
+		verifPoint("get.afterIndexUnlock", key, 0)
 
 		blobPath := path.Join(c.dir, c.FileLocation(kind, item.legacy, hash, item.size, item.random))
 
@@ -468,6 +471,7 @@ func (c *diskCache) availableOrTryProxy(kind cache.EntryKind, hash string, size 
 				// Another request replaced the file before we could open it?
 				// Enter slow path.
 				fastPath = false
+				verifPoint("get.beforeSlowPathLock", key, 0)
 
 				c.mu.Lock()
 				item, listElem = c.lru.Get(key)
@@ -508,6 +512,7 @@ func (c *diskCache) availableOrTryProxy(kind cache.EntryKind, hash string, size 
 					log.Printf("Warning: expected item to be on disk, but something happened when retrieving %s (compressed: %v, legacy: %v): %v",
 						blobPath, zstd, item.legacy, err)
 					_ = f.Close()
+					verifPoint("get.beforeFailedRemove", key, 0)
 
 					c.mu.Lock()
 					c.lru.RemoveElement(listElem)
@@ -707,6 +712,7 @@ func (c *diskCache) get(ctx context.Context, kind cache.EntryKind, hash string, 
 	if err != nil {
 		return nil, -1, internalErr(err)
 	}
+	verifPoint("get.proxy.afterCopy", key, sizeOnDisk)
 
 	rcf, err := os.Open(blobFile)
 	if err != nil {
@@ -738,6 +744,7 @@ func (c *diskCache) get(ctx context.Context, kind cache.EntryKind, hash string, 
 		return nil, -1, internalErr(err)
 	}
 
+	verifPoint("get.proxy.beforeCommit", key, sizeOnDisk)
 	unreserve, removeTempfile, err = c.commit(key, legacy, blobFile, size, foundSize, sizeOnDisk, random)
 	if err != nil {
 		_ = rc.Close()
